@@ -28,9 +28,14 @@ package config
 //@ -- Shadowing: a value from a lower-priority source than the one that already supplied the parameter has no
 //@ -- effect - in particular it can neither set the field, nor abort resolution with an error.  Checked at the
 //@ -- three places where an iteration has an effect: the two error exits and the field store.
+//@ -- Claiming: within one source, every known parameter that the source is allowed to set ends its iteration
+//@ -- claimed (recorded in nameToSource by this or a higher-priority source) - in particular an invalid,
+//@ -- non-fatal value claims the parameter for the default, so that lower-priority sources cannot supply it.
+//@ spec func paramIsLocal(p Param) bool
 //@ func (*Config).resolve
 //@   property C27
 //@   option safety off
+//@   loop 2 invariant forall r string :: visited[r] && (strLower(r) in knownParams) && !(paramIsLocal(knownParams[strLower(r)]) && !srcIsLocal(source)) ==> (strLower(r) in nameToSource)
 //@   ghost at call logrus.Errorf: check source >= currentSource
 //@   ghost at call logrus.Entry).Error: check source >= currentSource
 //@   ghost at call (reflect.Value).Set: check source >= currentSource ; check !(metadata.Local && !srcIsLocal(source))
@@ -41,6 +46,7 @@ package config
 //@   assigns nothing
 //@ func (Param).GetMetadata
 //@   trusted
+//@   ensures res != nil && res.Local == paramIsLocal(recv)
 //@   assigns nothing
 
 //@ -- Felix's default for ProgramClusterRoutes and its accepted values (struct tag consumed by the parameter loader)
